@@ -1,12 +1,13 @@
 (* CorrC02.v — variable expansion: model vs implementation for String reads and Unpack,
    and the substitution specification on the implementation's results (C02, C08). *)
-From Ucfg Require Export Base ParseInt Consts Field Tree PathOps Merge OTree F64 ParseValue VarParse Normalize Flags Ops VarEval.
+From Ucfg Require Export Base ParseInt Consts Field Tree PathOps Merge OTree F64 ParseValue VarParse Normalize Flags Ops VarEval Keys KeysDyn.
 
 Inductive xobs := XV (t : otree) | XE (r : ereason) | XPanic | XHang.
 
 Inductive case :=
 | CRead (o : eopts) (root : value) (name : string) (idx : Z) (observed : obs)   (* Config.String *)
-| CUnpackDyn (o : eopts) (root : value) (observed : xobs).                        (* Unpack into map[string]interface{} *)
+| CUnpackDyn (o : eopts) (root : value) (observed : xobs)                         (* Unpack into map[string]interface{} *)
+| CFlat (o : eopts) (root : value) (observed : option (list string)).            (* FlattenedKeys; None = it did not return *)
 
 Definition fuel_for (o : eopts) (root : value) : nat :=
   (40 + vsize root + fold_right (fun e n => Nat.add (vsize e) n) O (eo_envs o))%nat.
@@ -78,18 +79,26 @@ Definition model_agrees (c : case) : bool :=
     | Panic => xobs_eqb XPanic obs
     | OutOfModel => true
     end
+  | CFlat o root obs =>
+    match flattened_keys_dyn o "." (fuel_for o root) root, obs with
+    | Ok m, Some l => list_eqb String.eqb m l
+    | OutOfModel, _ => true
+    | _, _ => false
+    end
   end.
 
 Definition skipped (c : case) : bool :=
   match c with
   | CRead _ _ _ _ _ => match model_read c with OSkip => true | _ => false end
   | CUnpackDyn o root _ => match unpack_root o root with OutOfModel => true | _ => false end
+  | CFlat o root _ => match flattened_keys_dyn o "." (fuel_for o root) root with OutOfModel => true | _ => false end
   end.
 
 Definition prop_holds (c : case) : bool :=
   match c with
   | CRead _ _ _ _ OPanic => false
   | CUnpackDyn _ _ XPanic | CUnpackDyn _ _ XHang => false
+  | CFlat _ _ None => false
   | _ => true
   end.
 
